@@ -53,3 +53,9 @@ CLAIMED['C07'] = ('6/C07', 'Bounded-exhaustive symbolic check: a parent whose de
                   'path-value model (value reached before vs after, both sides resolving), operations on detached objects must be silent and '
                   'detached objects must hold no watcher.',
                   'symbolic execution (CrossHair+z3) of the dynamic-dependency rebinding code against a path-value model')
+CLAIMED['C06'] = ('6/C06', 'Bounded-exhaustive symbolic check: classes built inside the path from symbolic choices (dependency set, on_init, '
+                  'override pattern: none / decorated override / undecorated override / grandchild of an override / mixin), a method-on-method '
+                  'dependency and a function-form dependency; after construction and after each of k=2/3 symbolic operations (set, slot set, '
+                  'update, two kinds of batch; symbolic values) the number of calls of each method equals 1 iff at least one resolved '
+                  'dependency changed, 0 otherwise.',
+                  'symbolic execution (CrossHair+z3) of the depends/watch installation and dispatch code against a call-count model')
